@@ -31,6 +31,8 @@ pub struct BodyCfg {
     pub const_ternary_cond: bool,
     /// put difficulty labels on structured statements too
     pub label_structured: bool,
+    /// bias towards declaring more locals (C05)
+    pub more_locals: bool,
     /// known finding: the initial conditional jump of a labelled `while (..)` / `if (..)` loses its difficulty label
     pub exclude_label_on_cond_region: bool,
 }
@@ -38,7 +40,7 @@ pub struct BodyCfg {
 impl BodyCfg {
     pub fn full() -> BodyCfg {
         BodyCfg { structured: true, raw_jumps: true, time_labels: true, diff: true, locals: true, calls: true, assigns: true, interrupts: false,
-                  max_stmts: 14, max_depth: 3, expr_depth: 3, exclude_reg_in_diff_switch: false, dynamic_counts: true, sentinel: true, time_decrease: false, nested_diff_switch: true, const_ternary_cond: true, label_structured: false, exclude_label_on_cond_region: false }
+                  max_stmts: 14, max_depth: 3, expr_depth: 3, exclude_reg_in_diff_switch: false, dynamic_counts: true, sentinel: true, time_decrease: false, nested_diff_switch: true, const_ternary_cond: true, label_structured: false, more_locals: false, exclude_label_on_cond_region: false }
     }
 }
 
@@ -81,7 +83,7 @@ impl<'a, 'b> BodyGen<'a, 'b> {
         }
         let free = |ty: Ty| spec.regs.iter().filter(|r| r.scratch && r.ty == Some(ty) && !usable.contains(&r.id)).count();
         let free_scratch = [free(Ty::Int), free(Ty::Float)];
-        let max_locals = [free(Ty::Int).saturating_sub(1), free(Ty::Float).saturating_sub(1)];
+        let max_locals = if cfg.more_locals { [free(Ty::Int) + 1, free(Ty::Float) + 1] } else { [free(Ty::Int).saturating_sub(1), free(Ty::Float).saturating_sub(1)] };
         let free_loopvars = spec.regs.iter().filter(|r| r.class == RegClass::LoopVar).map(|r| r.id).collect();
         let budget = cfg.max_stmts;
         BodyGen { tape, spec, avail, cfg, usable, scopes: vec![vec![]], reserved: vec![], live_locals: [0, 0], max_locals, next_local: 0, next_label: 0, loop_depth: 0, budget, free_loopvars, free_scratch, tcur: 0, in_diff_switch: false }
@@ -518,7 +520,7 @@ impl<'a, 'b> BodyGen<'a, 'b> {
                     if self.cfg.assigns { if let Some(s) = self.assign() { out.push(self.with_diff(s)); continue; } }
                     let c = self.call(); out.push(self.with_diff(c));
                 }
-                6 => {
+                6 | 11 if k == 6 || self.cfg.more_locals => {
                     if self.cfg.locals { if let Some(s) = self.decl() { out.push(s.into()); continue; } }
                     let c = self.call(); out.push(c.into());
                 }
